@@ -85,7 +85,7 @@ PROPS["C08"] = dict(
     ],
     jobs=lambda tier: [
         per_format("hostile", "^TestC08$", 600 if tier == "quick" else 15000, timeout=900 if tier == "quick" else 3400),
-        per_format("growth", "^TestC08Growth$", 3 if tier == "quick" else 16, timeout=900 if tier == "quick" else 3400, shrinktime="5s"),
+        per_format("growth", "^TestC08Growth$", 1 if tier == "quick" else 5, timeout=900 if tier == "quick" else 3400, shrinktime="5s"),
         per_format("tiny", "^TestC08Tiny$", 1 if tier == "quick" else 3, formats=STATEFUL, timeout=900, shrinktime="1s"),
     ],
 )
